@@ -23,8 +23,8 @@ def tast_callees(body):
                 return   # closures are separate bodies in both views
             if n.get("k") in ("Call", "MethodCall", "Index", "Binary", "AssignOp", "Unary") and is_local(n.get("def") or "") and n.get("dk") != "Ctor":
                 c[n["def"]] += 1
-            for v in n.values():
-                if isinstance(v, (dict, list)):
+            for kk, v in n.items():
+                if isinstance(v, (dict, list)) and not kk.startswith("_"):
                     walk(v)
     walk(body)
     return c
